@@ -1103,6 +1103,58 @@ impl WorldA {
                 viols.push(("all_spender_allowances".into(), c, d));
             }
         }
+        // every listed row is a *current* item: it must agree with the point query for the same key
+        let mut cross: Vec<(String, String)> = vec![];
+        for (o, rows) in owners.iter().take(6) {
+            for (sp, amt, e) in rows.iter().take(12) {
+                if let Ok(a) = chain.query::<cw20::AllowanceResponse>("token", &json!({"allowance":{"owner":o,"spender":sp}})) {
+                    if (a.allowance.u128(), a.expires) != (*amt, *e) {
+                        cross.push(("all_allowances".into(), format!("owner {} spender {}: listed ({}, {:?}) but Allowance says ({}, {:?})", o, sp, amt, e, a.allowance, a.expires)));
+                    }
+                }
+            }
+        }
+        for (sp, rows) in spenders.iter().take(6) {
+            for (o, amt, e) in rows.iter().take(12) {
+                if let Ok(a) = chain.query::<cw20::AllowanceResponse>("token", &json!({"allowance":{"owner":o,"spender":sp}})) {
+                    if (a.allowance.u128(), a.expires) != (*amt, *e) {
+                        cross.push(("all_spender_allowances".into(), format!("spender {} owner {}: listed ({}, {:?}) but Allowance says ({}, {:?})", sp, o, amt, e, a.allowance, a.expires)));
+                    }
+                }
+            }
+        }
+        for (a, b) in rawkeys::entries(&dump, "balance").into_iter().take(40) {
+            let addr = String::from_utf8_lossy(&a).to_string();
+            let stored: Option<cosmwasm_std::Uint128> = cosmwasm_std::from_json(&b).ok();
+            if let (Ok(q), Some(st)) = (chain.query::<cw20::BalanceResponse>("token", &json!({"balance":{"address":addr}})), stored) {
+                if q.balance != st {
+                    cross.push(("all_accounts".into(), format!("{}: stored {} but Balance says {}", addr, st, q.balance)));
+                }
+            }
+        }
+        for (l, d) in cross {
+            viols.push((l, "listed-item-ne-point-query".into(), d));
+        }
+        // and every current item is listed
+        for o in self.users.iter().take(5) {
+            for sp in self.users.iter().take(5) {
+                if o == sp {
+                    continue;
+                }
+                if let Ok(a) = chain.query::<cw20::AllowanceResponse>("token", &json!({"allowance":{"owner":o,"spender":sp}})) {
+                    if !a.allowance.is_zero() {
+                        let in_o = owners.get(o).map(|r| r.iter().any(|x| &x.0 == sp)).unwrap_or(false);
+                        let in_s = spenders.get(sp).map(|r| r.iter().any(|x| &x.0 == o)).unwrap_or(false);
+                        if !in_o {
+                            viols.push(("all_allowances".into(), "current-item-not-listed".into(), format!("allowance {} -> {} of {} is not in the owner listing", o, sp, a.allowance)));
+                        }
+                        if !in_s {
+                            viols.push(("all_spender_allowances".into(), "current-item-not-listed".into(), format!("allowance {} -> {} of {} is not in the spender listing", o, sp, a.allowance)));
+                        }
+                    }
+                }
+            }
+        }
         for (l, c, d) in viols {
             self.viol(out, "C20", &format!("cw20-{}/{}", l.replace('_', "-"), c), json!({"list": l}), d);
         }
